@@ -983,9 +983,14 @@ fn sqlish_tree(k: usize, f: &'static str) -> X {
 }
 
 /// negative int literals (the minimum int is one token with its sign) in 8 positions
-const NEGATIVE_LITERALS: [i64; 3] = [-1, -5, i64::MIN];
+/// ... and the extreme int/uint literals (a uint of 2^63 or more must not come out as a negative number)
+const NEGATIVE_LITERALS: [i128; 7] = [-1, -5, i64::MIN as i128, i64::MAX as i128, 1 << 63, u64::MAX as i128, (1 << 63) - 1 + (1 << 64)];
 fn negative_literal_tree(idx: u64) -> X {
-    let lit = || X::Int(NEGATIVE_LITERALS[(idx / 8) as usize]);
+    let lit = || {
+        let v = NEGATIVE_LITERALS[(idx / 8) as usize];
+        // entries of 2^63 and more are uint literals; the last one is the uint 2^63 - 1
+        if v >= (1 << 64) { X::UInt((v - (1 << 64)) as u64) } else if v > i64::MAX as i128 { X::UInt(v as u64) } else { X::Int(v as i64) }
+    };
     let a = || Box::new(X::Id("a"));
     match idx % 8 {
         0 => lit(),
